@@ -90,9 +90,15 @@ func validateDatatype(k string, v any, typ string) string {
 		}
 	case "objectarray":
 		// special case that this means we should recurse -- but not here
-		// just make sure that the value is an array
-		if _, ok := v.([]any); !ok {
+		// just make sure that the value is an array and that every element is an object
+		arr, ok := v.([]any)
+		if !ok {
 			return fmt.Sprintf("field %s must be an array of objects", k)
+		}
+		for i, a := range arr {
+			if _, ok := a.(map[string]any); !ok {
+				return fmt.Sprintf("field %s must be an array of objects, but element %d is %T", k, i, a)
+			}
 		}
 	case "anyscalar":
 		switch v.(type) {
